@@ -48,3 +48,52 @@ Theorem C13_at_count : forall c inst n e u ctl s,
      end) s1.
 Proof. exact at_count_pauses. Qed.
 Print Assumptions C13_at_count.
+
+(* ---------- never because of failures of other runs or processes (for EVERY state) ---------- *)
+From WF Require Import proofs.CtrFacts proofs.Delivery.
+
+(* maybePause touches exactly one counter entry: (instance, (error, process, run)) *)
+Theorem C13_only_its_own_key : forall c inst n e u ctl s,
+  only_key inst (Z.to_N e, eunit_code u, r_run ctl) (o_w s) (o_w (snd (maybe_pause c inst n e u ctl s))).
+Proof. exact maybe_pause_only_key. Qed.
+Print Assumptions C13_only_its_own_key.
+
+(* a step consumer of process (inst, u) handling an event of run r moves at most counts of instance inst whose key names process u
+   and run r: failures of other runs, other processes (steps, shards, timeouts) and other instances never move its counts, and its
+   failures never move theirs *)
+Theorem C13_step_counts_are_per_process_and_run : forall c inst u st b n e s,
+  own inst u (e_run e) (o_w s) (o_w (snd (step_handler c inst u st (invoke c (UFStep st) b st) n e s))).
+Proof. intros. apply step_handler_own; [intros v; apply nc_invoke|apply invoke_keeps_run]. Qed.
+Print Assumptions C13_step_counts_are_per_process_and_run.
+
+Theorem C13_inserter_counts_are_per_process_and_run : forall c inst u st n e s,
+  own inst u (e_run e) (o_w s) (o_w (snd (step_handler c inst u st (inserter_fn st (ec_tos c) 0) n e s))).
+Proof. intros. apply step_handler_own; [intros v; apply nc_inserter_fn|apply inserter_keeps_run]. Qed.
+Print Assumptions C13_inserter_counts_are_per_process_and_run.
+
+(* the timeout poller: only counts of its own process *)
+Theorem C13_poller_counts_are_per_process : forall c inst u st n l s,
+  own_proc inst u (o_w s) (o_w (snd (poll_timers c inst u st n l s))).
+Proof. exact poll_timers_own. Qed.
+Print Assumptions C13_poller_counts_are_per_process.
+
+(* ---------- the paused-records retry process (for EVERY state) ---------- *)
+(* a run that is not Paused any more — resumed by hand, or cancelled: never revived — is left alone *)
+Theorem C13_retry_leaves_unpaused_alone : forall c e s r s1,
+  p_lookup (e_run e) s = (Ok (Some r), s1) -> r_state r <> RSPaused -> retry_handler c e s = (Ok tt, s1).
+Proof. exact retry_leaves_unpaused_alone. Qed.
+Print Assumptions C13_retry_leaves_unpaused_alone.
+
+(* still Paused but updated less than the resume interval ago (on a store that stamps the update time on every write, that is the
+   time it was paused): nothing happens *)
+Theorem C13_retry_waits_for_the_interval : forall c e s r s1,
+  p_lookup (e_run e) s = (Ok (Some r), s1) -> r_state r = RSPaused -> r_updated r > w_now (o_w s1) - ec_retry c ->
+  retry_handler c e s = (Ok tt, s1).
+Proof. exact retry_waits_for_the_interval. Qed.
+Print Assumptions C13_retry_waits_for_the_interval.
+
+Theorem C13_retry_resumes_after_the_interval : forall c e s r s1,
+  p_lookup (e_run e) s = (Ok (Some r), s1) -> r_state r = RSPaused -> r_updated r <= w_now (o_w s1) - ec_retry c ->
+  retry_handler c e s = (x <- ctl_do c r RSRunning 0 ;; match fst x with Ok _ => ret tt | Err er => fail er end) s1.
+Proof. exact retry_resumes_after_the_interval. Qed.
+Print Assumptions C13_retry_resumes_after_the_interval.
